@@ -241,9 +241,16 @@ theorem narrowU_get : ∀ (ufs : UFields) (i : Nat) (tid : Int) (nm : String) (d
     simp only [narrowU, Bool.and_eq_true] at hn
     exact narrowU_get r i tid nm dt n md hn.2 (by simpa [UFields.toList] using h)
 
+/-- the root schema: fewer than `usize::MAX` columns, and so at every struct level below -/
+def narrowRoot (fields : List Field) : Bool := narrowDT (.struct (Fields.ofList fields))
+
 theorem narrowFs_ofList : ∀ (fields : List Field), narrowFs (Fields.ofList fields) = fields.all narrowF
   | [] => rfl
   | f :: r => by simp [Fields.ofList, narrowFs, narrowFs_ofList r]
+
+theorem narrowRoot_eq (fields : List Field) :
+    narrowRoot fields = (decide (fields.length < UNKNOWN_KEY) && fields.all narrowF) := by
+  simp [narrowRoot, narrowDT, narrowFs_ofList]
 
 /-! ### a struct builder and a raw stream: what survives
 
